@@ -189,6 +189,8 @@ impl TimeTrigger {
 
         #[cfg(not(test))]
         let current = Local::now();
+        #[cfg(log4rs_verif)]
+        let current = crate::verif_hooks::clock(current);
         let next_time = TimeTrigger::get_next_time(current, config.interval, config.modulate);
         let next_roll_time = if config.max_random_delay > 0 {
             let random_delay = rand::thread_rng().gen_range(0..config.max_random_delay);
@@ -276,6 +278,36 @@ impl TimeTrigger {
     }
 }
 
+#[cfg(log4rs_verif)]
+#[doc(hidden)]
+impl TimeTrigger {
+    /// The private schedule computation, unchanged.
+    pub fn verif_get_next_time(
+        current: DateTime<Local>,
+        interval: TimeTriggerInterval,
+        modulate: bool,
+    ) -> DateTime<Local> {
+        TimeTrigger::get_next_time(current, interval, modulate)
+    }
+
+    /// The currently scheduled instant.
+    pub fn verif_next_roll_time(&self) -> DateTime<Local> {
+        *self.next_roll_time.read().unwrap()
+    }
+}
+
+#[cfg(log4rs_verif)]
+#[doc(hidden)]
+impl TimeTriggerConfig {
+    pub fn verif_new(interval: TimeTriggerInterval, modulate: bool, max_random_delay: u64) -> Self {
+        TimeTriggerConfig {
+            interval,
+            modulate,
+            max_random_delay,
+        }
+    }
+}
+
 impl Trigger for TimeTrigger {
     fn trigger(&self, _file: &LogFile) -> anyhow::Result<bool> {
         #[cfg(test)]
@@ -291,6 +323,8 @@ impl Trigger for TimeTrigger {
 
         #[cfg(not(test))]
         let current: DateTime<Local> = Local::now();
+        #[cfg(log4rs_verif)]
+        let current = crate::verif_hooks::clock(current);
         let mut next_roll_time = self.next_roll_time.write().unwrap();
         let is_trigger = current >= *next_roll_time;
         if is_trigger {
